@@ -52,6 +52,9 @@ MODELS = {
     "function-positions": ("c.n = 1.5\nc.y = 0.5",
                            "[c]\ndot(n) = k * ceil(n)^2 - n + floor(y)^2 - abs(n - 3)^3 / 4 + (ceil(y) + 1)^0.5\nk = 0.25\n"
                            "dot(y) = -ceil(n) * y + 2^ceil(y) - sqrt(n)^3 + exp(-y)^2 - (-y)^2 + -(y^2) + ceil(n - y) + ceil(engine.time / 3 - y) - floor(n - y)\n"),
+    "small-literals": ("c.ca = 0.0002\nc.v = -80",
+                       "[c]\ndot(ca) = -0.0000518213477 * ica + 0.0123456789012 * (0.0001 - ca) + 1.23456789e-9\nica = gca * (v - 65.4321098765)\n    gca = 0.09\n"
+                       "dot(v) = -ica * 123456.789012 + 9.87654321e15 * 1e-16\n"),
     "constant-expressions": ("c.x = 1",
                              "[c]\ndot(x) = -r * x + s\nr = 1 / 4\ns = 2 * k\nk = 3\n"),
 }
